@@ -267,6 +267,7 @@ class Grammar:
         accept = {}
         self.token_names = []
         self.skipped = set()
+        self._rule_start = {}
         # implicit tokens for literals used in parser rules are not supported
         stack = []
 
@@ -357,6 +358,7 @@ class Grammar:
             stack[:] = [n]
             e = build(b, s1)
             accept[e] = idx
+            self._rule_start[idx] = s1
         self._eps, self._trans, self._accept = eps, trans, accept
         self._c0 = frozenset(self._closure({start}))
         self._step_cache = {}
@@ -432,6 +434,62 @@ class Grammar:
                 col += len(seg)
             pos = end
         return out
+
+    def alphabet(self):
+        """Characters mentioned by the lexer rules (literals and sets), plus a few foreign ones."""
+        chars = set()
+        for s in range(len(self._trans)):
+            for (cs, neg, t) in self._trans[s]:
+                chars |= set(cs)
+        return sorted(chars | set("\u00e9\u03c0~`$@;?"))
+
+    def rule_strings(self, name, maxlen=6, limit=400, alphabet=None):
+        """Strings accepted by lexer rule `name` alone (enumerated from its NFA,
+        shortest first, one representative character per distinct transition set)."""
+        idx = self.token_names.index(name)
+        acc_state = [s for s, a in self._accept.items() if a == idx][0]
+        start = frozenset(self._closure({self._rule_start[idx]}))
+        alpha = alphabet or self.alphabet()
+        out = []
+        frontier = [("", start)]
+        seen = {start}
+        for _ in range(maxlen):
+            nxt = []
+            for (prefix, S) in frontier:
+                groups = {}
+                for ch in alpha:
+                    T = self._step(S, ch)
+                    if T:
+                        groups.setdefault(T, ch)
+                for T, ch in groups.items():
+                    w = prefix + ch
+                    if acc_state in T:
+                        out.append(w)
+                        if len(out) >= limit:
+                            return out
+                    nxt.append((w, T))
+            frontier = nxt[: 4 * limit]
+            if not frontier:
+                break
+        return out
+
+    def sample_text(self, name):
+        """A short string that the full lexer turns into exactly one token of type `name` (or None)."""
+        for w in self.rule_strings(name, maxlen=8, limit=60):
+            try:
+                t = self.tokenize(w, keep_skipped=True)
+            except ValueError:
+                continue
+            if len(t) == 1 and t[0].type == name:
+                return w
+        for ch in self.alphabet():
+            try:
+                t = self.tokenize(ch, keep_skipped=True)
+            except ValueError:
+                continue
+            if len(t) == 1 and t[0].type == name:
+                return ch
+        return None
 
     def eof_position(self, text):
         """(line, col) ANTLR reports for the EOF token."""
